@@ -288,6 +288,7 @@ class Prop(object):
         self._check(r, pk, hashed, {'sptype': 32, 'implemented': True, 'critical': False, 'inner': 'non-minimal'}, case, 'embedded signature with non-minimal inner encodings', flips=False)
         self._embedded_in_key(r, case)
         self._header_octets_rsa(r, case)
+        self._huge_hashed_area(r, case)
         r.samples.append({'embedded': True})
         return r
 
@@ -348,6 +349,39 @@ class Prop(object):
             r.outcomes['attest:' + ('ok' if not probs else 'violation')] += 1
         r.samples.append({'attest': menu})
         return r
+
+    def _huge_hashed_area(self, r, case):
+        """Hashed areas at the top of what the two-octet area length can say (the trailer's four-octet length then has a non-zero third octet)."""
+        raw, pub = self._ctx()
+        base = rsig.sp_created(SIG_T) + rsig.sp_issuer_fpr(rkeys.fingerprint(raw))
+        for total in (255, 256, 65000, 65529, 65530, 65531, 65534, 65535):
+            # one opaque private-use subpacket fills the area up to `total` octets
+            n = total - len(base)
+            body_len = n - 6 if n - 6 >= 16320 else (n - 3 if n - 3 >= 192 else n - 2)
+            sp = wire.subpacket(101, bytes((i * 3 + total) & 0xFF for i in range(body_len)))
+            if len(base) + len(sp) != total:
+                sp = wire.subpacket(101, bytes(body_len - (len(base) + len(sp) - total)))
+            pk, hashed = self._make(sp)
+            if len(hashed) != total:
+                continue
+            self._check(r, pk, hashed, {'hashed_area': total if total < 65000 else 'top-of-range', 'sptype': 101, 'implemented': False, 'critical': False},
+                        dict(case, only_area=total), 'hashed area of %d octets' % total, flips=False)
+            # a few bit flips spread over the area
+            import pgpy
+            body = bytearray(wire.read_packet(pk)['body'])
+            for off in (6, 6 + total // 2, 6 + total - 1):
+                b = bytearray(body)
+                b[off] ^= 0x04
+                r.states += 1
+                r.transitions += 1
+                try:
+                    s2 = pgpy.PGPSignature.from_blob(wire.packet(2, b))
+                    ok = bool(pub.verify(DOC, s2))
+                except Exception:
+                    ok = False
+                r.outcomes['flip:' + ('truthy' if ok else 'falsy')] += 1
+                if ok:
+                    r.viol('bitflip', {'what': 'bitflip', 'hashed_area': 'huge', 'region': 'hashed-area'}, dict(case, only_area=total), 'hashed area of %d octets: a flipped bit at offset %d still verifies' % (total, off))
 
     def _header_octets_rsa(self, r, case):
         """The public-key algorithm octet is part of the hashed header: RSA has three ids (1, and the deprecated 2 / 3) for one kind of key, so a
